@@ -205,9 +205,9 @@ def run(ctx) -> None:
     rng = ctx.rng
     try:
         with Reach(ANCHORS) as reach:
-            for i in range(ctx.pick(240, 6000) // ctx.shard_count):
+            for i in range(ctx.pick(240, 16000) // ctx.shard_count):
                 arun(history_registries(ctx, workdir, [None, *VERSIONS][i % 6], rng.choice([10, 50, 150]), i))
-            for i in range(ctx.pick(600, 20000) // ctx.shard_count):
+            for i in range(ctx.pick(600, 60000) // ctx.shard_count):
                 arun(roundtrip(ctx, constructed(rng), workdir, {"kind": "constructed", "index": i}))
         reach.into(ctx)
     finally:
